@@ -1,5 +1,6 @@
 import Tx3Proofs.C15
 import Tx3Proofs.C15Expr
+import Tx3Proofs.C15Queries
 #print axioms Tx3.Assets.C15_wf_constructors
 #print axioms Tx3.Assets.C15_wf_ops
 #print axioms Tx3.Assets.C15_amt_add
@@ -18,4 +19,11 @@ import Tx3Proofs.C15Expr
 #print axioms Tx3.Assets.C15_exprs
 #print axioms Tx3.Assets.C15_exprs_any_order
 #print axioms Tx3.Assets.C15_exprs_needs_proper
+#print axioms Tx3.Assets.isEmpty_iff
+#print axioms Tx3.Assets.isEmptyOrNegative_iff
+#print axioms Tx3.Assets.isOnlyNaked_iff
+#print axioms Tx3.Assets.containsTotal_iff
+#print axioms Tx3.Assets.containsSome_iff
+#print axioms Tx3.Assets.C15_queries_respect_equality
+#print axioms Tx3.Assets.C15_zero_immaterial
 #print axioms Tx3.C15_expr_sub_is_add_neg
